@@ -642,7 +642,18 @@ private:
             log_event(StructuredLogger::Level::Info,
                       "control.connection.accepted",
                       {{"remote", remote_address}});
-            handle_client(client, remote_address);
+            try {
+                handle_client(client, remote_address);
+            } catch (const std::exception& error) {
+                // A request must never take the daemon down: report the failure to the
+                // client and keep accepting connections.
+                log_event(StructuredLogger::Level::Error,
+                          "control.request.exception",
+                          {{"remote", remote_address}, {"error", error.what()}});
+                send_response(client,
+                              make_error("ERR_CONTROL_INTERNAL", "Request failed", error.what()),
+                              false);
+            }
             close_socket(client);
         }
     }
